@@ -118,6 +118,16 @@ def stepTyped (t : TRing Int) (isChar : Bool) (w : List String) : Option (TRing 
   | ["moveback", n] => do   -- move-construct another ring from x, then x.resize(n) and carry on with x
       let n ← n.toNat?
       pure (TRing.resize 0 t.move.2 n, "-")
+  | ["writebig", k, d] => do   -- write(buf, 2^32 + k); `d` = what the source buffer holds (size + 1 elements)
+      let k ← k.toNat?
+      let d ← parseBytes? d
+      if d.length < t.r.size.toNat + 1 then none
+      let (t', n) ← t.writeC (d.map fun b => b.toInt) (2 ^ 32 + k)
+      pure (t', toString n)
+  | ["readbig", k] => do       -- read(buf, 2^32 + k)
+      let k ← k.toNat?
+      let (r', out) ← TRing.readC ⟨t.r, t.buf.map charOfInt⟩ (2 ^ 32 + k)
+      pure ({ t with r := r' }, s!"{out.length} {bytesHex out}")
   | ["write", d] => do
       let d ← parseBytes? d
       let (r', buf', n) ← ringWrite t.r t.buf (d.map fun b => b.toInt)
@@ -192,6 +202,8 @@ def lifeScript (l : VRing Int) (n : Nat) : List Char → Nat → Option (VRing I
     | 'u' | 'U' => (l.push (k : Int)).bind fun l' => lifeScript l' n rest (k + 1)
     | 'o' | 'O' => (l.pop 0).bind fun l' => lifeScript l' n rest k
     | 'a' => lifeScript l.pushSelf n rest k
+    | 'e' => l.emplaceSelf.bind fun l' => lifeScript l' n rest k   -- emplace(head_place())
+    | 'x' | 'X' => (l.pushThrow 0).bind fun l' => lifeScript l' n rest k -- push whose copy constructor throws (caught by the caller)
     | 'c' => (VRing.clear 0 (l.t.r.size.toNat + 1) l).bind fun l' => lifeScript l' n rest k
     | 'z' | 'M' => lifeScript (VRing.resize 0 l n) n rest k   -- M: the elements die with the moved-to object
     | 'y' => lifeScript (VRing.copyAndDrop 0 l) n rest k
@@ -201,8 +213,36 @@ def lifeScript (l : VRing Int) (n : Nat) : List Char → Nat → Option (VRing I
 
 def lifeCount (n : Nat) (script : String) : String :=
   match lifeScript (VRing.mk' 0 n) n (if script == "-" then [] else script.toList) 0 with
-  | some l => s!"{l.overLive} {l.deadDtor} {l.deadRead} {l.ctor} {l.dtor}"
+  | some l => s!"{l.overLive} {l.deadDtor} {l.deadRead} {(l.ctor : Int) - l.dtor}"
   | none => "fault"
+
+/-- `arr <n> <script>`: `unbounded_array<T>(n)` under fill / clear / self-assignment / assignment from an
+array `{1..M}` / resize / begin-end; "<size>:<elements>" after every token, then the ledger after destruction -/
+def arrState (a : UArr Int) : String :=
+  s!"{a.data.length}:" ++ (if a.data.isEmpty then "-" else ",".intercalate (a.data.map toString))
+
+def arrScript (n : Nat) (toks : List String) : String :=
+  let rec go (a : UArr Int) (acc : List String) : List String → String
+    | [] =>
+      let f := a.invalidate
+      ";".intercalate acc.reverse ++ s!" | {(f.ctor : Int) - f.dtor} {f.deadDtor} {f.deadAssign}"
+    | tk :: rest =>
+      let k := ((tk.drop 1).toNat?).getD 0
+      let a' : Option (UArr Int) :=
+        if tk.startsWith "f" then a.fill (k : Int)
+        else if tk == "c" then some a.clear
+        else if tk == "s" then some (a.assign none)
+        else if tk.startsWith "g" then
+          -- the source array y(k) of the harness: k elements constructed, k destroyed at the end of the step
+          let r := a.assign (some ((List.range k).map fun i => ((i + 1 : Nat) : Int)))
+          some { r with ctor := r.ctor + k, dtor := r.dtor + k }
+        else if tk.startsWith "z" then some (a.resize 0 k)
+        else if tk == "b" then some a
+        else none
+      match a' with
+      | none => "fault"
+      | some a' => go a' (arrState a' :: acc) rest
+  go (UArr.mk' 0 n) [] toks
 
 /-- widths and signedness of the index / size / counter types the model embeds:
 `ring_head` fields `unsigned int` (BitVec 32), `ring_counter` fields `int`
@@ -213,7 +253,7 @@ def widthsLine : String :=
   "head u4 tail u4 size u4 rc.counter i4 rc.size i4 cyc._size u8 arr.m_size u8 " ++
   "ring_read i4 ring_write i4 ring_avail u4 ring_room u4 ring_fixup_index i4 putc i4 getc i4 " ++
   "t.read u8 t.write u8 t.avail u4 t.room u4 t.size u4 t.index_of i4 t.tail_index i4 t.distance i4 " ++
-  "t.fixup_index i4 ring_head 12 ring_counter 8 int_max 2147483647 uint_max 4294967295"
+  "t.fixup_index i4 int_max 2147483647 uint_max 4294967295"
 
 /-- byte `j` of the deterministic data sequence of the `hist` ops -/
 def histByte (j : Nat) : Byte := ([0xff, 0x80, 0x00, 0x7f, 0x01, 0xfe, 0x81] : List Byte).getD (j % 7) 0
@@ -328,6 +368,14 @@ def stepLine (s : St) (line : String) : St × String :=
   | ["lifecount", n, script] =>
       match n.toNat? with
       | some k => (s, lifeCount k script)
+      | none => (s, "bad-op")
+  | ["lifeviol", n, script] =>
+      match n.toNat? with
+      | some k => (s, lifeCount k script)
+      | none => (s, "bad-op")
+  | ["arr", n, script] =>
+      match n.toNat? with
+      | some k => (s, arrScript k (script.splitOn ","))
       | none => (s, "bad-op")
   | "lifeprobe" :: _ => (s, "-")   -- oracle-only operation: object lifetime is not modelled
   | "reset" :: "longrun" :: _ => (.none, "-")     -- oracle-only operation: 300 KiB through one ring
